@@ -45,8 +45,28 @@ def decode(b):
     return recs, None
 
 def check(impl, scn):
-    fails = []
-    if "pcap on" not in scn: return fails
+    return check_stats(impl, scn)[0]
+
+
+def check_stats(impl, scn):
+    try:
+        return _check_stats(impl, scn)
+    except Exception as e:                      # a monitor never raises; its own failure is reported as such
+        import traceback
+        return [("monitor-error", repr(e) + " " + traceback.format_exc()[-300:].replace("\n", " | "))], {}
+
+
+def _check_stats(impl, scn):
+    """-> (failures, counters). Destination rule (what the sender put on the wire, NAT or not):
+         UDP record: the endpoint given to the send_to call the datagram comes from;
+         TCP record of a connecting socket (source = the `from=` of its SYN): the endpoint given to connect;
+         TCP record of an accepted socket (source = an endpoint some connect dialled): the own endpoint of
+         one of the sockets that dialled it (the `from=` of their SYN at the first hop, before any NAT).
+       Sequence rule: per direction of a connection; a connection begins at its connect call (its SYN), so
+       a socket object or a 4-tuple that is used again starts again at zero."""
+    fails = []; st = {}
+    def cnt(k, n=1): st[k] = st.get(k, 0) + n
+    if "pcap on" not in scn: return fails, st
     cap = None
     sends = []      # what the first-hop probes saw, in order
     out_probes = set()
@@ -58,35 +78,75 @@ def check(impl, scn):
         tk = ln.split()
         if len(tk) >= 3 and tk[0] == "hop" and tk[2] == "nat":
             nat_ext.add(_kv(tk[3:]).get("ext", ""))
-    dst_of = {}     # for UDP the destination is known from the send_to call
-    pending_udp = []
+    pending_udp = []   # datagrams seen at a first-hop probe whose send_to call has not returned yet
+    pending_syn = []   # SYNs seen at a first-hop probe whose connect call has not returned yet
+    conn_no = [0]
     for ln in impl:
         tk = ln.split()
         if not tk: continue
-        if tk[0] == "F" and tk[1] == "pcap":
+        if tk[0] == "F" and len(tk) >= 3 and tk[1] == "pcap":
             try: cap = bytes.fromhex(tk[2]) if tk[2] != "-" else b""
-            except ValueError: fails.append(("wellformed", "capture is not hex")); return fails
-        elif tk[0] == "P" and tk[1] in out_probes:
+            except ValueError: fails.append(("wellformed", "capture is not hex")); return fails, st
+        elif tk[0] == "P" and len(tk) >= 2 and tk[1] in out_probes:
             d = _kv(tk[2:])
+            if not all(k in d for k in ("type", "from", "len", "ovh", "t", "ec", "pl")): continue
+            v4 = ":" not in d["from"].rsplit(":", 1)[0]
+            if d["type"] == "syn" and v4: pending_syn.append(d["from"])
             # data segments, datagrams and the closing (EOF) segment; handshake packets, ACKs and
             # the reset a closed acceptor answers queued connects with are not captured
-            if (d["type"] == "payload" or (d["type"] == "err" and d["ec"] == "eof")) and ":" not in d["from"].rsplit(":", 1)[0]:
+            if (d["type"] == "payload" or (d["type"] == "err" and d["ec"] == "eof")) and v4:
+                d["conn"] = conn_no[0]
                 sends.append(d)
+                if d["ovh"] == "28": pending_udp.append(d)
+        elif tk[0] == "C" and "=>" in tk and len(tk) >= 5:
+            op = tk[2]
+            if op.endswith(".send_to") and op[:1] == "u":
+                # the first-hop probe line of a datagram is printed inside the send_to call it belongs to
+                for d in pending_udp: d["dst"] = tk[3]
+                pending_udp = []
+            elif op.endswith(".connect") and op[:1] == "s":
+                conn_no[0] += 1
+                for f in pending_syn: sends.append(dict(type="connect", src=f, dst=tk[3]))
+                pending_syn = []
+            else:
+                pending_udp = []; pending_syn = []
+        elif tk[0] == "H":
+            pending_udp = []; pending_syn = []
         elif tk[0] == "X":
-            return fails          # crashed run: the capture is not complete
-    if cap is None: return fails
+            return fails, st          # crashed run: the capture is not complete
+    if cap is None: return fails, st
     # datagrams that do not fit one IPv4 packet are outside the property's quantifier
-    if any(int(d["len"]) + (40 if int(d["ovh"]) == 40 else 28) > 65535 for d in sends): return fails
+    if any(d["type"] != "connect" and int(d["len"]) + (40 if int(d["ovh"]) == 40 else 28) > 65535 for d in sends): return fails, st
     recs, err = decode(cap)
     if err:
-        fails.append(("wellformed", err)); return fails
+        fails.append(("wellformed", err)); return fails, st
     # every payload/EOF packet leaving a socket passes its first-hop probe exactly once, in send order
-    wire = [d for d in sends]
+    wire = [d for d in sends if d["type"] != "connect"]
     if len(recs) != len(wire):
         fails.append(("one_record_per_send", "%d records in the capture, %d packets put on the wire" % (len(recs), len(wire))))
-        return fails
-    last = (0, 0); sent = {}
-    for i, (r, d) in enumerate(zip(recs, wire)):
+        return fails, st
+    def ep_of(txt):
+        try:
+            a, p = txt.rsplit(":", 1); return (ip4(a), int(p))
+        except Exception:
+            return None
+    last = (0, 0); sent = {}; prev = {}
+    dialled = {}       # connecting endpoint -> endpoint it dialled last
+    dialled_by = {}    # dialled endpoint -> set of connecting endpoints
+    seen_seq = {}      # (key, seq, length) -> count, for the retransmission counter
+    i = -1
+    for d in sends:
+        if d["type"] == "connect":
+            c = ep_of(d["src"]); t = ep_of(d["dst"])
+            if c is None or t is None: continue
+            dialled[c] = t; dialled_by.setdefault(t, set()).add(c)
+            # a new connection between these endpoints: both directions count from zero again (segments
+            # of the previous one that are still being retransmitted go on with the previous numbering)
+            for key in ((c[0], c[1], t[0], t[1]), (t[0], t[1], c[0], c[1])):
+                if key in sent:
+                    prev[key] = sent.pop(key); cnt("seq_restart_same_4tuple")
+            continue
+        i += 1; r = recs[i]
         t = int(d["t"])
         exp_ts = ((EPOCH + t // 10**9) % 2**32, (t % 10**9) // 1000)
         if (r["sec"], r["usec"]) != exp_ts:
@@ -99,6 +159,26 @@ def check(impl, scn):
         # trip; the capture must show the sender's own address
         if (r["src"] != ip4(a) and a not in nat_ext) or (a in nat_ext and r["src"] == ip4(a)) or r["sport"] != int(p):
             fails.append(("addresses_ports", "record %d source %08x:%d, sender %s" % (i, r["src"], r["sport"], d["from"])))
+        # destination
+        if r["proto"] == 17:
+            e = ep_of(d.get("dst", ""))
+            if e is None: cnt("dst_unknown")
+            else:
+                cnt("dst_checked_udp")
+                if (r["dst"], r["dport"]) != e:
+                    fails.append(("addresses_ports", "record %d (UDP from %s) destination %08x:%d, the datagram was sent to %s" % (i, d["from"], r["dst"], r["dport"], d["dst"])))
+        elif r["proto"] == 6:
+            me = (r["src"], r["sport"])
+            if me in dialled and me not in dialled_by:
+                cnt("dst_checked_tcp_connector")
+                if (r["dst"], r["dport"]) != dialled[me]:
+                    fails.append(("addresses_ports", "record %d (TCP from %s) destination %08x:%d, the socket connected to %08x:%d" % ((i, d["from"], r["dst"], r["dport"]) + dialled[me])))
+            elif me in dialled_by and me not in dialled:
+                cnt("dst_checked_tcp_accepted")
+                if (r["dst"], r["dport"]) not in dialled_by[me]:
+                    fails.append(("addresses_ports", "record %d (TCP from %s) destination %08x:%d is not the endpoint of any socket that connected to it (%s)"
+                                  % (i, d["from"], r["dst"], r["dport"], ", ".join("%08x:%d" % c for c in sorted(dialled_by[me])))))
+            else: cnt("dst_unknown")
         if len(r["payload"]) != int(d["len"]):
             fails.append(("lengths", "record %d carries %d payload bytes, packet had %s" % (i, len(r["payload"]), d["len"])))
         else:
@@ -116,7 +196,18 @@ def check(impl, scn):
         if r["proto"] == 6:
             key = (r["src"], r["sport"], r["dst"], r["dport"])
             exp = sent.get(key, 0)
-            if r["seq"] != exp % 2**32:
-                fails.append(("seq", "record %d (TCP %s) sequence number %d, bytes previously transmitted in that direction %d" % (i, d["from"], r["seq"], exp)))
-            sent[key] = exp + len(r["payload"])
-    return fails
+            if r["seq"] == exp % 2**32:
+                sent[key] = exp + len(r["payload"])
+            elif key in prev and r["seq"] == prev[key] % 2**32:
+                prev[key] += len(r["payload"]); cnt("seq_previous_connection")
+            else:
+                fails.append(("seq", "record %d (TCP %s) sequence number %d, bytes previously transmitted in that direction of the connection %d" % (i, d["from"], r["seq"], exp)))
+                sent[key] = exp + len(r["payload"])
+            cnt("tcp_records")
+            if d["type"] == "err": cnt("closing_segments")
+            sk = (key, d.get("seq"), d["len"], d["pl"])
+            if d["type"] == "payload":
+                if sk in seen_seq: cnt("retransmitted_records")
+                seen_seq[sk] = 1
+        else: cnt("udp_records")
+    return fails, st
